@@ -350,7 +350,7 @@ theorem HInv.addRawTx {n : Node} (h : HInv n) (ts : Nat) (hash0 : String) (idx :
       · rw [if_neg h2]
         split <;> exact h
     · rw [if_neg h1]
-      exact h.addTxs ts hash0 idx (some txid) evs _
+      exact drainCheck_fst_ind h (h.addTxs ts hash0 idx (some txid) evs _)
 
 theorem HInv.commitAll {n : Node} (h : HInv n) : HInv n.commitAll :=
   HInv.of_latest_none (fun i => BlockDb.commit_clear_nodup (h.nodup i).1) rfl
@@ -871,7 +871,7 @@ theorem Op.run_clearEq (op : Op) (n : Node) (hop : op.isCommitPoint = false) : C
         · rw [if_neg h2]
           split <;> exact ClearEq.refl n
       · rw [if_neg h1]
-        exact addTxs_clearEq n ts hash0 idx (some txid) evs _
+        exact drainCheck_fst_ind (ClearEq.refl n) (addTxs_clearEq n ts hash0 idx (some txid) evs _)
   | initialise hash0 ts height evs =>
     show ClearEq n (n.initialise hash0 ts height evs).1
     rw [initialise_eq]
@@ -1031,7 +1031,7 @@ theorem SInv.addRawTx {n : Node} (h : SInv n) (ts : Nat) (hash0 : String) (idx :
       · rw [if_neg h2]
         split <;> exact h
     · rw [if_neg h1]
-      exact h.addTxs ts hash0 idx (some txid) evs _
+      exact drainCheck_fst_ind h (h.addTxs ts hash0 idx (some txid) evs _)
 
 /-- a node whose block tables are all `f (n.b i)` for a row-wise `f` that empties the cache side -/
 theorem SInv.of_rows {n n' : Node} (h : SInv n) (hw : n.lbi.waiting = 0) (p : Nat → Prop)
@@ -1321,7 +1321,8 @@ theorem addRawTx_block_frame (n : Node) (ts : Nat) (hash0 : String) (idx : Nat) 
       · rw [if_neg h2]
         split <;> exact ⟨rfl, rfl, rfl⟩
     · rw [if_neg h1]
-      exact addTxs_block_frame n ts hash0 idx (some txid) evs _
+      exact drainCheck_fst_ind (P := fun m => m.b = n.b ∧ m.latest = n.latest ∧ m.maxBlock = n.maxBlock)
+        ⟨rfl, rfl, rfl⟩ (addTxs_block_frame n ts hash0 idx (some txid) evs _)
 
 /-- the hash-index writes an accepted finalise may contain are keyed by the hash of the block being finalised -/
 theorem finOnly_hashIndex_key {hash : String} {evs : List Ev} (hf : finOnly hash evs = true) {st : Nat} {k : String}
